@@ -618,7 +618,7 @@ def cost_suite(ctx):
         except Exception as e:  # noqa: BLE001
             goal, v = "False", f"{type(e).__name__}: {e}"
         G.append(("capital-cost-formula", "capital cost = N (a + b (A/N)^c)", dict(area=A, num_units=N, fixed=a, variable=b, exponent=c, returned=v), goal))
-        i = rng.randint(1, 64) / 256
+        i = rng.randint(1, 64) / 256 if rng.random() < 0.75 else rng.choice([1 / 2048, 1 / 4096, 3 / 4096, 1 / 16384])   # also rates below 0.1 % a year
         n = rng.randint(1, 30)
         try:
             v = float(costing.compute_capital_recovery_factor(i, n))
